@@ -27,7 +27,7 @@ def mode_spec(spec, name):
 
 PROPS["C01"] = {
     "level": "exploration",
-    "budget_s": {"quick": 80, "thorough": 2700},
+    "budget_s": {"quick": 80, "thorough": 2400},
     "modes": [{"name": "", "runs": {"quick": 16000, "thorough": 400000}, "chunk": 500}],
     "rule": ("one run = one generated case (1-3 namespaces; relations with declared types; permissions of depth<=3 over includes/permits/traverse/!/&&/||; "
              "config installed as no-relation namespaces, Go AST or OPL text through the real parser; 0-25 tuples with subject sets, duplicates, expansion cycles; default or strict mode; one query) "
@@ -48,7 +48,7 @@ PROPS["C01"] = {
 
 PROPS["C03"] = {
     "level": "fault_enumeration",
-    "budget_s": {"quick": 80, "thorough": 2700},
+    "budget_s": {"quick": 80, "thorough": 2400},
     "modes": [{"name": "engine", "runs": {"quick": 5000, "thorough": 120000}, "chunk": 250},
               {"name": "batch", "runs": {"quick": 1500, "thorough": 40000}, "chunk": 250},
               {"name": "sql", "runs": {"quick": 2500, "thorough": 60000}, "chunk": 250}],
@@ -64,7 +64,7 @@ PROPS["C03"] = {
 
 PROPS["C15"] = {
     "level": "fault_enumeration",
-    "budget_s": {"quick": 80, "thorough": 2700},
+    "budget_s": {"quick": 80, "thorough": 1500},
     "modes": [{"name": "", "runs": {"quick": 6000, "thorough": 150000}, "chunk": 250}],
     "rule": ("one run = one generated case with recursion allowed (self/mutual recursive permissions through ||, && and !, expansion cycles, parent cycles under traverse, nodes wider than the width limit), "
              "max_read_depth 1..5, max_read_width in {1,2,3,5,100}; executed (a) fault-free, (b) with the request context cancelled before start and after the j-th storage call for every j<=N (N<=10 quick / 40 thorough, else sampled), "
@@ -80,7 +80,7 @@ PROPS["C15"] = {
 
 PROPS["C02"] = {
     "level": "exploration",
-    "budget_s": {"quick": 80, "thorough": 2700},
+    "budget_s": {"quick": 80, "thorough": 2400},
     "modes": [{"name": "", "runs": {"quick": 3800, "thorough": 200000}, "chunk": 200},
               {"name": "positive", "runs": {"quick": 1200, "thorough": 60000}, "chunk": 200}],
     "rule": ("one run = one generated case (recursion allowed: self/mutual recursive permissions, expansion cycles, wide nodes; mode 'positive' without negation) with global max_read_depth g in 1..8, request max-depth r in -3..10, "
@@ -107,7 +107,7 @@ STUB_S = [
 
 PROPS["C04"] = {
     "level": "exploration",
-    "budget_s": {"quick": 80, "thorough": 2700},
+    "budget_s": {"quick": 80, "thorough": 1500},
     "modes": [{"name": "", "runs": {"quick": 2500, "thorough": 60000}, "chunk": 100},
               {"name": "faults", "runs": {"quick": 1200, "thorough": 30000}, "chunk": 100},
               {"name": "bulk", "runs": {"quick": 160, "thorough": 4000}, "chunk": 10}],
@@ -126,7 +126,7 @@ PROPS["C04"] = {
 
 PROPS["C17"] = {
     "level": "exploration",
-    "budget_s": {"quick": 60, "thorough": 1800},
+    "budget_s": {"quick": 60, "thorough": 900},
     "modes": [{"name": "", "runs": {"quick": 2500, "thorough": 60000}, "chunk": 100},
               {"name": "fresh", "runs": {"quick": 400, "thorough": 12000}, "chunk": 25}],
     "rule": ("one run = a stored state built by 0-12 tape-generated writes, then 5-25 read/syntax requests over all 15 read entry points (REST GET/POST check with and without status mirroring, gRPC check, REST and gRPC batch check, expand, list, namespaces, OPL syntax check), "
@@ -141,7 +141,7 @@ PROPS["C17"] = {
 
 PROPS["C06"] = {
     "level": "exploration",
-    "budget_s": {"quick": 70, "thorough": 2400},
+    "budget_s": {"quick": 70, "thorough": 1200},
     "modes": [{"name": "", "runs": {"quick": 1200, "thorough": 30000}, "chunk": 50},
               {"name": "manager", "runs": {"quick": 700, "thorough": 20000}, "chunk": 50}],
     "rule": ("mode 'manager' (the property's own observation point): 2-3 sql.Persisters / Traversers / check and expand engines with different network ids over ONE connection, driven with IDENTICAL UUIDs in every network (through the string API two networks never share an object UUID, which would hide a missing nid predicate); "
@@ -159,7 +159,7 @@ PROPS["C06"] = {
 
 PROPS["C07"] = {
     "level": "exploration",
-    "budget_s": {"quick": 70, "thorough": 2400},
+    "budget_s": {"quick": 70, "thorough": 1500},
     "modes": [{"name": "", "runs": {"quick": 1500, "thorough": 40000}, "chunk": 50},
               {"name": "writes", "runs": {"quick": 1500, "thorough": 40000}, "chunk": 50},
               {"name": "token", "runs": {"quick": 300, "thorough": 3000}, "chunk": 100},
@@ -177,7 +177,7 @@ PROPS["C07"] = {
 
 PROPS["C16"] = {
     "level": "exploration",
-    "budget_s": {"quick": 70, "thorough": 2400},
+    "budget_s": {"quick": 70, "thorough": 900},
     "modes": [{"name": "", "runs": {"quick": 900, "thorough": 25000}, "chunk": 50},
               {"name": "faults", "runs": {"quick": 300, "thorough": 8000}, "chunk": 50}],
     "rule": ("one run = a name pool drawn from ~50 adversarial strings (empty, one rune, 4-byte runes, combining marks vs precomposed, case and trailing-space variants, control characters, RTL, 64 KiB, names equal to namespace/relation names, URL/SQL metacharacters) "
@@ -193,7 +193,7 @@ PROPS["C16"] = {
 
 PROPS["C13"] = {
     "level": "exploration",
-    "budget_s": {"quick": 70, "thorough": 2400},
+    "budget_s": {"quick": 70, "thorough": 1200},
     "modes": [{"name": "", "runs": {"quick": 3000, "thorough": 80000}, "chunk": 100},
               {"name": "faults", "runs": {"quick": 1000, "thorough": 25000}, "chunk": 100}],
     "rule": ("one run = 6-30 steps; a third is normal write/read traffic, the rest are hostile requests: REST requests built from the 12 documented endpoints and then mutated 1-3 times "
@@ -209,7 +209,7 @@ PROPS["C13"] = {
 
 PROPS["C05"] = {
     "level": "fault_enumeration",
-    "budget_s": {"quick": 90, "thorough": 3000},
+    "budget_s": {"quick": 90, "thorough": 2400},
     "modes": [{"name": "faults", "runs": {"quick": 260, "thorough": 6000}, "chunk": 10},
               {"name": "crash", "runs": {"quick": 120, "thorough": 3000}, "chunk": 10},
               {"name": "crash-wal", "runs": {"quick": 60, "thorough": 1500}, "chunk": 10},
@@ -232,7 +232,7 @@ PROPS["C05"] = {
 
 PROPS["C08"] = {
     "level": "exploration",
-    "budget_s": {"quick": 80, "thorough": 2700},
+    "budget_s": {"quick": 80, "thorough": 1800},
     "modes": [{"name": "", "runs": {"quick": 2200, "thorough": 60000}, "chunk": 100},
               {"name": "batch-order", "runs": {"quick": 2500, "thorough": 80000}, "chunk": 250}],
     "rule": ("mode '' (tier S): one run = a generated (config, store) as in C01 (limits non-binding) and a tuple under test (the generated query, a stored relationship, an unknown namespace, an unknown subject-set namespace, arbitrary unicode object) with max-depth absent / 0 / -1 / huge; "
@@ -249,7 +249,7 @@ PROPS["C08"] = {
 
 PROPS["C09"] = {
     "level": "exploration",
-    "budget_s": {"quick": 150, "thorough": 3000},
+    "budget_s": {"quick": 150, "thorough": 1800},
     "modes": [{"name": "", "runs": {"quick": 5000, "thorough": 150000}, "chunk": 250},
               {"name": "faults", "runs": {"quick": 1000, "thorough": 40000}, "chunk": 100}],
     "rule": ("one run = a rewrite-free store (random edges, chains with shortcuts so that one subject set is reachable at two depths, cycles, wide nodes, one > 100 children case per 200 runs), a subject set, global depth g in {1,2,3,4,5,8,50}, request depth in {-2,0,1,2,3,4,5,7,100}, "
@@ -267,7 +267,7 @@ PROPS["C09"] = {
 
 PROPS["C11"] = {
     "level": "exploration",
-    "budget_s": {"quick": 70, "thorough": 2400},
+    "budget_s": {"quick": 70, "thorough": 1500},
     "modes": [{"name": "", "runs": {"quick": 2500, "thorough": 60000}, "chunk": 100},
               {"name": "reject", "runs": {"quick": 3000, "thorough": 60000}, "chunk": 500},
               {"name": "mutants", "runs": {"quick": 4000, "thorough": 120000}, "chunk": 200}],
@@ -286,7 +286,7 @@ PROPS["C11"] = {
 PROPS["C14"] = {
     "level": "exploration",
     "race": True,
-    "budget_s": {"quick": 90, "thorough": 2700},
+    "budget_s": {"quick": 90, "thorough": 2100},
     "modes": [{"name": "", "runs": {"quick": 5000, "thorough": 100000}, "chunk": 250},
               {"name": "handlers", "runs": {"quick": 2500, "thorough": 60000}, "chunk": 250},
               {"name": "statements", "runs": {"quick": 1500, "thorough": 40000}, "chunk": 150},
@@ -306,7 +306,7 @@ PROPS["C14"] = {
 
 PROPS["C19"] = {
     "level": "exploration",
-    "budget_s": {"quick": 70, "thorough": 2400},
+    "budget_s": {"quick": 70, "thorough": 1800},
     "modes": [{"name": "opl-file", "runs": {"quick": 2000, "thorough": 50000}, "chunk": 250},
               {"name": "opl-dir", "runs": {"quick": 3000, "thorough": 80000}, "chunk": 250},
               {"name": "legacy-file", "runs": {"quick": 1500, "thorough": 40000}, "chunk": 250},
